@@ -148,12 +148,13 @@ open Nima.Frag
 
 `Model/Cst.lean` (input: concrete-syntax trees with explicit gaps), `Model/FromCst.lean`
 (`NixSourceCode.from_cst`, `AttributeSet.from_cst`, `Binding.from_cst`, `NixList.from_cst`,
-`Parenthesis.from_cst`, `FunctionCall.from_cst`, `parse_delimited_sequence`) and `Model/Rebuild.lean`
-(`rebuild` of the same classes, string level and piece level) model the parse side and the render
-side for files made of attribute sets with plain single-segment names, lists, parenthesised
-expressions `( e )`, function applications `f x` / `f x y` and leaf values, nested to any depth, with
-arbitrary whitespace and line / one-line block comments in every gap (inside parentheses and between
-function and argument too). The statements below are about EVERY such tree
+`Parenthesis.from_cst`, `FunctionCall.from_cst`, `WithStatement.from_cst`, `parse_delimited_sequence`)
+and `Model/Rebuild.lean` (`rebuild` of the same classes, string level and piece level) model the parse
+side and the render side for files made of attribute sets with plain single-segment names, lists,
+parenthesised expressions `( e )`, function applications `f x` / `f x y`, `with e; body` and leaf
+values, nested to any depth, with arbitrary whitespace and line / one-line block comments in every gap
+(inside parentheses and between function and argument too; the three gaps of a `with` itself —
+after the keyword and around its `;` — hold whitespace only: `Cst.wf`). The statements below are about EVERY such tree
 (structural induction), tied to the implementation by `fragment_correspondence`. -/
 
 /-- The piece list the theorems speak about is the output text, cut into pieces. -/
@@ -240,6 +241,23 @@ def parenSample : File :=
 example : parenSample.flatten = "{ a = f (\n\n    x\n  ) y; }".toList := by decide
 example : parenSample.wf = true ∧ parenSample.noLeadingWs = true := by decide
 example : parenSample.roundtrip = .ok "{\n  a = f (\n\n    x\n  ) y;\n}".toList := by decide
+
+/-- `with a;⏎⏎{ x = with (f b) ; [⏎ c ]; }`: an absorbable body on its own line after a blank line, a
+    `with` as a binding value whose body is a multi-line list -/
+def withSample : File :=
+  { items := .elem []
+      (.kw true [] " ".toList (.leaf .ident "a".toList) [] [] [] "\n\n".toList
+        (.set false [] (.bind " ".toList "x".toList [] " ".toList [] " ".toList
+          (.kw true [] " ".toList (.paren (.elem [] (.app (.leaf .ident "f".toList) [] " ".toList (.leaf .ident "b".toList)) .nil) [])
+            [] " ".toList [] " ".toList
+            (.list (.elem "\n ".toList (.leaf .ident "c".toList) .nil) " ".toList))
+          [] [] .nil) " ".toList)) .nil,
+    endGap := [] }
+
+example : withSample.flatten = "with a;\n\n{ x = with (f b) ; [\n c ]; }".toList := by decide
+example : withSample.wf = true ∧ withSample.noLeadingWs = true := by decide
+example : withSample.codeTokens =
+    ["with", "a", ";", "{", "x", "=", "with", "(", "f", "b", ")", ";", "[", "c", "]", ";", "}"].map String.toList := by decide
 
 end Fragment
 
